@@ -2465,6 +2465,9 @@ func (c *Ctx) unobservedNewField(typ string, f *types.Var) bool {
 			}
 			continue
 		}
+		if u, ok := a.instr.(*ssa.UnOp); ok && u.Op == token.MUL && onlyFeedsItselfOrLogs(u, u.X, 0) {
+			continue // x.f++ and the like: the value read goes nowhere but back into the field (or a log line)
+		}
 		if c.runByExistingCode()[outer(a.fn)] {
 			return false
 		}
